@@ -1,40 +1,119 @@
 package c16
 
 import (
-	"fmt"
 	"os"
-	"sync"
+	"verif/internal/mon"
+	"fmt"
 	"testing"
 
-	"verif/internal/mon"
+	"github.com/scrapli/scrapligo/driver/netconf"
+	"github.com/scrapli/scrapligo/driver/options"
+
+	"verif/internal/devsim"
+	"verif/internal/ncsim"
+	"verif/internal/ncwire"
 )
 
-// temporary: hunt for the intermittent NETCONF 1.1 difference over the real ssh client
-func TestStressNC(t *testing.T) {
-	os.Setenv("C16_DIR", t.TempDir())
-	var wg sync.WaitGroup
-	var mu sync.Mutex
-	bad := 0
-	total := 0
-	for g := 0; g < 24; g++ {
-		wg.Add(1)
-		go func(g int) {
-			defer wg.Done()
-			for i := 0; i < 15; i++ {
-				d := Desc{Kind: "e2e-netconf", T: "system-ssh", Version: "1.1", ReadSize: 8192, Seed: int64(399589561300 + g*1000 + i)}
-				r := runE2ENC(d)
-				mu.Lock()
-				total++
-				if r.Verdict != mon.Held {
-					bad++
-					if bad <= 5 {
-						fmt.Println(r.Verdict, r.Key, r.Detail)
-					}
-				}
-				mu.Unlock()
-			}
-		}(g)
+// temporary experiment: a tty that echoes the client's writes ("\n" -> "\r\n") in front of a
+// NETCONF 1.1 server. With late >= 0 the echo of the write that follows a complete request (the
+// driver's second return) arrives `late` bytes into the reply, as happens when the client is
+// descheduled between its writes.
+type echoDev struct {
+	*ncsim.Server
+	late int
+	held []byte
+}
+
+func (d *echoDev) Input(c *devsim.Conn, b []byte) {
+	var echo []byte
+	for _, ch := range b {
+		if ch == '\n' {
+			echo = append(echo, '\r', '\n')
+		} else {
+			echo = append(echo, ch)
+		}
 	}
-	wg.Wait()
-	fmt.Println("total", total, "bad", bad)
+	if d.held != nil {
+		k := d.late
+		if k > len(d.held) {
+			k = len(d.held)
+		}
+		c.Emit(d.held[:k])
+		c.Emit(echo)
+		c.Emit(d.held[k:])
+		d.held = nil
+		d.Server.Input(c, b)
+		return
+	}
+	c.Emit(echo)
+	d.Server.Input(c, b)
+}
+
+func TestLateEcho(t *testing.T) {
+	for _, late := range []int{-1, 0, 3, 30, 200} {
+		s := genNCScript(399589561300, "1.1")
+		model := s.server()
+		dev := &echoDev{Server: model, late: late}
+		model.OnMsg = func(sv *ncsim.Server, c *devsim.Conn, m *ncsim.Msg) {
+			if m.Hello {
+				return
+			}
+			i := m.Index - 1
+			p := ncsim.Reply(m.ID, s.Replies[i])
+			framed := ncwire.EncodeChunked(p, nil)
+			if late < 0 {
+				c.Emit(framed)
+				return
+			}
+			dev.held = framed
+		}
+		conn := devsim.NewConn(dev, devsim.Config{Seg: devsim.Seg{Mode: "whole"}})
+		nd, err := netconf.NewDriver("ideal", append(baseOpts(8192), options.WithCustomTransport(conn))...)
+		if err != nil {
+			t.Fatal(err)
+		}
+		var o ncOutcome
+		driveNC(s, nd, &o)
+		conn.Abandon()
+		n := 0
+		for _, r := range o.Results {
+			if r == "" {
+				n++
+			}
+		}
+		fmt.Printf("late=%d err=%q results=%d empty=%d failed=%.300q\n", late, o.Err, len(o.Results), n, o.Failed)
+	}
+}
+
+// temporary: the same over the real ssh client, with the client process starved of CPU so that the
+// driver's three writes per request are spread out in time
+func TestStarvedRealSSH(t *testing.T) {
+	os.Setenv("C16_DIR", t.TempDir())
+	stop := make(chan struct{})
+	for i := 0; i < 6; i++ {
+		go func() {
+			x := 0
+			for {
+				select {
+				case <-stop:
+					return
+				default:
+					x++
+				}
+			}
+		}()
+	}
+	bad := 0
+	for i := 0; i < 12; i++ {
+		d := Desc{Kind: "e2e-netconf", T: "system-ssh", Version: "1.1", ReadSize: 8192, Seed: int64(399589561300 + i)}
+		r := runE2ENC(d)
+		if r.Verdict != mon.Held {
+			bad++
+			if bad <= 3 {
+				fmt.Printf("%s %s %.1200s\n", r.Verdict, r.Key, r.Detail)
+			}
+		}
+	}
+	close(stop)
+	fmt.Println("bad", bad, "of 12")
 }
